@@ -6,7 +6,7 @@ import random
 import re
 
 from .common import (TREES, Bounded, all_pairs, build_arch, arch_snapshot, desc_set, doc_verdict, fset, import_relations, make_rule,
-                     no_parent_self_import, outcome, pmap, unrelated)
+                     no_parent_self_import, outcome, pmap, unrelated, batch_as)
 
 SHAPES = [(v, i, e) for v in ("should", "should_only", "should_not") for i in (True, False) for e in (False, True)]
 
@@ -110,11 +110,14 @@ def _verdict_chunk(args):
             if not no_parent_self_import(imports, S + O):
                 continue
             for verb, imp, exc in SHAPES:
-                kind, msg = outcome(make_rule(S, verb, imp, exc, O), arch)
+                # batches are passed as a list, every third batched case as a tuple (both are Sequence[str])
+                as_tuple = (len(S) > 1 or len(O) > 1) and out["cases"] % 3 == 2
+                with batch_as(tuple if as_tuple else list):
+                    kind, msg = outcome(make_rule(S, verb, imp, exc, O), arch)
                 want = doc_verdict(mods, imports, S, verb, imp, exc, O)
                 out["cases"] += 1
                 out["nontrivial"] += bool(imports)
-                inp = dict(tree=tree, imports=[list(p) for p in listed], subjects=S, verb=verb, import_=imp, except_=exc, objects=O)
+                inp = dict(tree=tree, imports=[list(p) for p in listed], subjects=S, verb=verb, import_=imp, except_=exc, objects=O, batch="tuple" if as_tuple else "list")
                 if len(out["samples"]) < 1 and imports:
                     out["samples"].append(dict(inp, verdict=kind))
                 if kind == "error" or (kind == "pass") != want:
@@ -214,7 +217,8 @@ def rerun_verdict(inp):
         ok = kind != "error" and (kind == "pass") == want
         return ok, f"real outcome: {kind} {msg!r}; documented semantics: {'pass' if want else 'fail'}"
     O = [tuple(x) for x in inp["objects"]]
-    kind, msg = outcome(make_rule(S, inp["verb"], inp["import_"], inp["except_"], O), arch)
+    with batch_as(inp.get("batch", "list")):
+        kind, msg = outcome(make_rule(S, inp["verb"], inp["import_"], inp["except_"], O), arch)
     want = doc_verdict(mods, imports, S, inp["verb"], inp["import_"], inp["except_"], O)
     ok = kind != "error" and (kind == "pass") == want
     text = f"real outcome: {kind} {msg!r}; documented semantics: {'pass' if want else 'fail'}"
